@@ -52,7 +52,7 @@ FAULT_PROBES = {"first_command_fails": "first_command_fails", "middle_command_fa
 INTERP_VARIANTS = [{"flags": ["-O"], "runs": {"quick": 64, "thorough": 800}, "what": "python -O (assert statements stripped from the code under test)"}]
 PROBES = ["all_commands_succeed", "first_command_fails", "middle_command_fails", "last_command_fails", "death_by_signal", "return_file_missing",
           "all_return_files_missing", "return_file_is_input_file", "binary_input_file", "unnamed_command", "no_return_files_requested",
-          "runner_killed_mid_command", "driver_second_instance_used_after_first", "driver_job_level_override", "driver_subclass_instance", "driver_created_used_dropped", "driver_class_level_envars", "two_jobs_same_jid_overlap", "driver_found_through_PATH", "driver_vectorised_job"]
+          "runner_killed_mid_command", "driver_second_instance_used_after_first", "driver_job_level_override", "driver_subclass_instance", "driver_created_used_dropped", "driver_class_level_envars", "two_jobs_same_jid_overlap", "driver_found_through_PATH", "driver_vectorised_job", "same_program_names_on_the_runners_PATH"]
 
 FAIL_KINDS = [("rc", 1), ("rc", 2), ("rc", 255), ("sig", -11)]
 
@@ -98,6 +98,11 @@ def gen_plan(r, tier, index):
         "commands": cmds, "files": files, "returns": rets,
         "return_files_none": nret == 0 and r.random() < 0.5,
         "envars": r.choice([None, {}, {"OMP_NUM_THREADS": "4"}, {"OMP_NUM_THREADS": "2", "MOLLI_TEST_VAR": "a b", "HOME": "/nonexistent"}]),
+        # programs of the same names exist on the RUNNER's own PATH while the job brings its own PATH: the commands still
+        # run exactly as asked (bare program name, looked up in the job's environment by whoever executes them)
+        "runner_path_shadow": r.random() < 0.25,
+        # some produced return files are empty: an existing file of 0 bytes exists
+        "empty_returns": r.random() < 0.3,
         "drivers": {
             "job_level": r.choice([{}, {}, {"executable": "jobexe"}, {"nprocs": 3}, {"envars": {"JOBVAR": "J"}}]),
             "class_envars": r.choice([None, None, {"CLSVAR": "c"}, {"CLSVAR": "c", "SHARED": "from-class"}]),
@@ -106,6 +111,8 @@ def gen_plan(r, tier, index):
                           for k in range(r.choice([2, 2, 3]))],
         },
     }
+    if plan["runner_path_shadow"]:
+        plan["envars"] = dict(plan["envars"] or {}, PATH="/job/own/bin:/usr/bin")
     return plan
 
 
@@ -116,6 +123,12 @@ def _file_bytes(spec):
 
 def _file_value(spec):
     return bytes.fromhex(spec["hex"]) if "hex" in spec else spec["text"]
+
+
+def _ret_bytes(plan, x):
+    if plan.get("empty_returns") and x["name"].endswith(("0.dat", "2.dat")):
+        return b""
+    return f"result {x['name']} by {x['by']}".encode() + bytes([0, 255, x["by"]])
 
 
 def _exec_one(plan, fail, missing, kill_at, root, res, sigctx, twin=False):
@@ -140,13 +153,13 @@ def _exec_one(plan, fail, missing, kill_at, root, res, sigctx, twin=False):
     n = len(cmds)
 
     def behaviour(argv, rec, fe):
-        i = int(argv[0][4:])
+        i = int(os.path.basename(argv[0])[4:])
         act = {"out": f"stdout of command {i} of {plan['jid']}\n", "err": f"stderr of command {i}\nsecond line\n", "rc": 0, "files": {}}
         if kill_at is not None and i == kill_at:
             return {"kill": True, "rc": -9}
         for x in plan["returns"]:
             if x["by"] == i and x["name"] not in missing:
-                act["files"][x["name"]] = f"result {x['name']} by {i}".encode() + bytes([0, 255, i])
+                act["files"][x["name"]] = _ret_bytes(plan, x)
         for x in plan["returns"]:
             if x["by"] == "input" and x["name"] in missing and i == 0:
                 act.setdefault("delete", []).append(x["name"])
@@ -164,7 +177,7 @@ def _exec_one(plan, fail, missing, kill_at, root, res, sigctx, twin=False):
         ji.dump(inp2)
 
         def hook(argv, rec):
-            if twin_info or argv[0] != "prog0":
+            if twin_info or os.path.basename(argv[0]) != "prog0":
                 return
             twin_info["started"] = True
             fe2 = FakeExec(behaviour)
@@ -182,11 +195,28 @@ def _exec_one(plan, fail, missing, kill_at, root, res, sigctx, twin=False):
             twin_info["stderr"] = p2.stderr[-300:]
 
         fe.hook = hook
-    with pipeline_seams(fe, sp):
-        cwd0 = os.getcwd()
-        proc = sp(["_molli_run", inp, "-o", outdir, "-s", scratch], cwd=work, capture_output=True, encoding="utf8")
-        if os.getcwd() != cwd0:
-            raise HarnessError("SimSpawn did not restore the cwd")
+    old_path = os.environ.get("PATH", "")
+    if plan.get("runner_path_shadow"):
+        import stat as _stat
+
+        bindir = os.path.join(root, "runnerbin")
+        os.makedirs(bindir)
+        for i_ in range(len(cmds)):
+            fn_ = os.path.join(bindir, f"prog{i_}")
+            with open(fn_, "w") as f_:
+                f_.write("#!/bin/sh\nexit 0\n")
+            os.chmod(fn_, os.stat(fn_).st_mode | _stat.S_IXUSR)
+        os.environ["PATH"] = bindir + os.pathsep + old_path
+        res.stats["probe:same_program_names_on_the_runners_PATH"] += 1
+    try:
+        ambient = dict(os.environ)
+        with pipeline_seams(fe, sp):
+            cwd0 = os.getcwd()
+            proc = sp(["_molli_run", inp, "-o", outdir, "-s", scratch], cwd=work, capture_output=True, encoding="utf8")
+            if os.getcwd() != cwd0:
+                raise HarnessError("SimSpawn did not restore the cwd")
+    finally:
+        os.environ["PATH"] = old_path
     res.evals += 1
     if not fe.log and kill_at is None:
         # nothing went through the external-program seam
@@ -204,7 +234,7 @@ def _exec_one(plan, fail, missing, kill_at, root, res, sigctx, twin=False):
                                              f"directories {mine} vs {twin_info.get('cwds')}, exit {proc.returncode} vs {twin_info.get('rc')} "
                                              f"(twin stderr {twin_info.get('stderr')!r})")
     # ---- what ran
-    ran = [int(r_["argv"][0][4:]) for r_ in fe.log]
+    ran = [int(os.path.basename(r_["argv"][0])[4:]) for r_ in fe.log]
     last = n - 1 if fail is None else fail[0]
     if kill_at is not None:
         last = kill_at
@@ -234,7 +264,7 @@ def _exec_one(plan, fail, missing, kill_at, root, res, sigctx, twin=False):
         if extra:
             return viol("private-directory", f"the job directory held foreign entries {sorted(extra)} before the first command")
         # ---- environment
-        want_env = dict(os.environ)
+        want_env = dict(ambient)
         if plan["envars"]:
             want_env.update(plan["envars"])
         for i, r_ in enumerate(fe.log):
@@ -273,7 +303,7 @@ def _exec_one(plan, fail, missing, kill_at, root, res, sigctx, twin=False):
             if x["name"] not in missing:
                 want_files[x["name"]] = _file_bytes(plan["files"][x["name"]])
         elif x["by"] <= last and x["name"] not in missing:
-            want_files[x["name"]] = f"result {x['name']} by {x['by']}".encode() + bytes([0, 255, x["by"]])
+            want_files[x["name"]] = _ret_bytes(plan, x)
     if dict(jo.files or {}) != want_files:
         return viol("returned-files", f"files returned {sorted(jo.files or {})} expected {sorted(want_files)}"
                     + "".join(f"; {k}: {(jo.files or {}).get(k)!r:.60} != {v!r:.60}" for k, v in want_files.items() if (jo.files or {}).get(k) != v))
@@ -403,8 +433,7 @@ def _drivers(plan, res):
             want_env.update(jl.get("envars") or {})
             if ji.commands[0][0] != f"{exe} -n {npr} -m {mem} --flag C churn{rnd}" or dict(ji.envars or {}) != want_env:
                 bad += 1
-        del ds
-        gc.collect()
+        del ds      # (released by reference counting; the id() seam hands their identities to the next objects that ask)
         return bad
 
     # ---- executables found through PATH: a driver created with find=True carries what PATH resolved to AT ITS creation,
